@@ -3,6 +3,7 @@
 package main
 
 import (
+	"sync"
 	"context"
 	"encoding/hex"
 	"encoding/json"
@@ -75,6 +76,24 @@ type sender struct {
 	obs *Obs
 }
 
+// one API service for the whole run, as in the node: what it forwards to is switched per case
+type router struct {
+	mu  sync.Mutex
+	cur *sender
+}
+
+func (r *router) SendBid(ctx context.Context, tx, amt string, blk, st, en int64) (chan *preconfpb.PreConfirmation, error) {
+	r.mu.Lock()
+	s := r.cur
+	r.mu.Unlock()
+	return s.SendBid(ctx, tx, amt, blk, st, en)
+}
+
+var (
+	theRouter  = &router{}
+	theService *bidderapi.Service
+)
+
 func (s *sender) SendBid(_ context.Context, tx, amt string, blk, st, en int64) (chan *preconfpb.PreConfirmation, error) {
 	s.obs.Forwarded = append(s.obs.Forwarded, Fwd{hs(tx), hs(amt), blk, st, en})
 	ch := make(chan *preconfpb.PreConfirmation, len(s.in.Commits))
@@ -114,7 +133,13 @@ func run(in In) (obs Obs) {
 			obs.Panic = true
 		}
 	}()
-	svc := bidderapi.NewService(&sender{in, &obs}, common.HexToAddress("0xab"), nil, validator, vh.Quiet())
+	if theService == nil {
+		theService = bidderapi.NewService(theRouter, common.HexToAddress("0xab"), nil, validator, vh.Quiet())
+	}
+	svc := theService
+	theRouter.mu.Lock()
+	theRouter.cur = &sender{in, &obs}
+	theRouter.mu.Unlock()
 	bid := &bidderapiv1.Bid{Amount: uh(in.Amount), BlockNumber: in.Block, DecayStartTimestamp: in.Start, DecayEndTimestamp: in.End}
 	for _, h := range in.TxHashes {
 		bid.TxHashes = append(bid.TxHashes, uh(h))
@@ -168,6 +193,8 @@ func main() {
 		}
 		return cs
 	}
+	sibling := false
+	var emitRef func(tag string, hashes []string, amount string, blk, st, en int64)
 	emit := func(tag string, hashes []string, amount string, blk, st, en int64) {
 		in := In{Tag: tag, TxHashes: []string{}, Amount: hs(amount), Block: blk, Start: st, End: en}
 		for _, h := range hashes {
@@ -175,7 +202,24 @@ func main() {
 		}
 		in.Commits = commits(rng.Intn(4), strings.Join(hashes, ","))
 		out.Emit(in, run(in))
+		if sibling || !rng.Chance(12) {
+			return
+		}
+		// the same request again with exactly one thing changed, back to back through the one service
+		sibling = true
+		defer func() { sibling = false }()
+		if len(hashes) > 1 {
+			rev := append([]string{}, hashes...)
+			rev[0], rev[len(rev)-1] = rev[len(rev)-1], rev[0]
+			emitRef(tag+"-sibling", rev, amount, blk, st, en)
+		}
+		emitRef(tag+"-sibling", hashes, amount+"0", blk, st, en)
+		emitRef(tag+"-sibling", hashes, amount, blk+1, st, en)
+		emitRef(tag+"-sibling", hashes, amount, blk, st+1, en)
+		emitRef(tag+"-sibling", hashes, amount, blk, st, en+1)
+		emitRef(tag+"-sibling", hashes, amount, blk, st, en)
 	}
+	emitRef = emit
 	g := goodHash
 	// boundary tables
 	amounts := []string{"1", "2", "1000000000000000000", "18446744073709551615", "18446744073709551616", "99999999999999999999999999",
